@@ -188,6 +188,9 @@ type Walker struct {
 	inlineHelpers bool
 	// rec: private site recorder (nil = the analysis-wide table)
 	rec *Analysis
+	// siteOwner: sites recorded while a higher-order helper or a function literal is walked inline belong to the
+	// function whose walk reached them (their facts are relative to its entry)
+	siteOwner *FuncInfo
 }
 
 type inlineCtx struct {
@@ -1014,7 +1017,7 @@ func (w *Walker) write(loc string, kind int, idx, val *Term, st *State, at ast.N
 		kind = KillStable
 	}
 	if w.record {
-		site := w.recA().siteFor(w.Fn, at, "write", "", loc)
+		site := w.recA().siteFor(w.sfn(), at, "write", "", loc)
 		site.Store |= kind
 		w.A.snap(site, st, nil, nil, val, idx)
 	}
@@ -1409,7 +1412,7 @@ func (w *Walker) inlinePredicate(call *ast.CallExpr, fn *FuncInfo, st *State) (t
 	if w.record {
 		recvs, args, sts := w.evalCallOperands(call, st.clone())
 		for i, s := range sts {
-			site := w.recA().siteFor(w.Fn, call, "call", "fn:"+fn.Name, "")
+			site := w.recA().siteFor(w.sfn(), call, "call", "fn:"+fn.Name, "")
 			site.Target = fn
 			site.Call = call
 			w.A.snap(site, s, recvs[i], args[i], nil, nil)
@@ -1737,6 +1740,7 @@ func (w *Walker) eval(e ast.Expr, st *State) []evalRes {
 	case *ast.FuncLit:
 		t := fresh("func")
 		t.NonNil = true
+		t.Fun = &FuncVal{Lit: x, Owner: w.Fn}
 		return one(t)
 	case *ast.TypeAssertExpr:
 		return w.eval(x.X, st)
@@ -1897,6 +1901,7 @@ func (w *Walker) selector(x *ast.SelectorExpr, st *State) []evalRes {
 		if sel.Kind() != types.FieldVal {
 			t := mkTerm(KSel, x.Sel.Name, b.t)
 			t.NonNil = true
+			t.Fun = w.methodValue(x, b.t)
 			out = append(out, evalRes{b.st, t})
 			continue
 		}
@@ -1981,7 +1986,7 @@ func (w *Walker) indexSite(n ast.Node, base, idx *Term, st *State) {
 	if !w.record || base == nil || base.K != KField {
 		return
 	}
-	site := w.recA().siteFor(w.Fn, n, "index", "", base.Name)
+	site := w.recA().siteFor(w.sfn(), n, "index", "", base.Name)
 	w.A.snap(site, st, nil, nil, nil, idx)
 }
 
@@ -2004,7 +2009,7 @@ func (w *Walker) siteExt(n ast.Node, callee string, st *State, recv *Term, args 
 	if !w.record {
 		return
 	}
-	site := w.recA().siteFor(w.Fn, n, "call", callee, "")
+	site := w.recA().siteFor(w.sfn(), n, "call", callee, "")
 	w.A.snap(site, st, recv, args, nil, nil)
 }
 
